@@ -19,11 +19,16 @@
        `C01_splice_erasure`);
     4. the special/user split (`C01_decode_split`).
 
-  Parameters (trusted base, compared at run time by harness/props/c01.py, family `meta`): `findEnd` =
-  `_get_metadata_end` (CPython's tokenizer), `enc`/`repl` = `eval` + `pickle` + `hex`.
+    5. the end finder itself (`metadataEnd`, the character scanner of repo fix e40192c): `C01_end_is_closer`,
+       `C01_end_inside`, `C01_end_simple`, `C01_end_stray_closer`, `C01_end_fuel_irrelevant`, and the parameter-free
+       composition `C01_encodeAll_total_spec`.
+
+  Sections 1–4 take `findEnd` = `_get_metadata_end` as a parameter; section 5 discharges every assumption on it.
+  Still a parameter (trusted base, compared at run time by harness/props/c01.py, family `meta`): `enc`/`repl` =
+  `eval` + `pickle` + `hex`.
   Definitions and proofs: AY/Model/MetaText.lean, AY/Lemmas/MetaText.lean.
 -/
-import AY.Lemmas.MetaText
+import AY.Lemmas.MetaEnd
 namespace AY
 open MetaText
 
@@ -262,5 +267,145 @@ theorem C01_decode_split {α β : Type} [DecidableEq α] (specials : List α) (m
 example : specialNames.Nodup := by decide
 example : decodeSplit specialNames [("note", 1), ("safe", 0), ("priority", 7), ("idx", 3)] =
     ([("idx", 3), ("priority", 7), ("safe", 0)], [("note", 1)]) := by decide +kernel
+
+/-! ### 5. The end finder -/
+
+/- "the block ends at the first '}}' that is neither inside a string nor inside nested brackets": for EVERY text and
+   EVERY position `b`, an end `e` that `_get_metadata_end(data, b)` reports is inside the text, the two characters in
+   front of it are `}}`, and it leaves room for the opening braces: `b + 4 ≤ e` (so `data[b+1:e-1]`, what is
+   evaluated, starts behind the first `{` and ends before the last `}`). -/
+theorem C01_end_is_closer (data : List Char) (b e : Nat) (h : metadataEnd data b = some e) :
+    b + 4 ≤ e ∧ e ≤ data.length ∧ (data.drop (e - 2)).take 2 = ['}', '}'] := by
+  have := scanEnd_some data _ _ _ e h
+  exact ⟨by omega, this.2⟩
+
+/-- the three inputs of defects D36–D38 (README-style `a: !metadata{{…}} 5`, the block starts at 12) -/
+def c01Nested : List Char := "a: !metadata{{'x': {'y': 1}}} 5\n".toList
+def c01StrClose : List Char := "a: !metadata{{'x': 'p}}q'}} 5\n".toList
+def c01MultiLine : List Char := "a: !metadata{{\n 'x': 1,\n }} 5\nb: 6\n".toList
+
+-- nested closing braces, '}}' inside a string, a line break: the end is the real end of the block
+example : metadataEnd c01Nested 12 = some 29 ∧ (c01Nested.take 29).drop 12 = "{{'x': {'y': 1}}}".toList := by decide +kernel
+example : metadataEnd c01StrClose 12 = some 27 ∧ (c01StrClose.take 27).drop 12 = "{{'x': 'p}}q'}}".toList := by decide +kernel
+example : metadataEnd c01MultiLine 12 = some 27 ∧ (c01MultiLine.take 27).drop 12 = "{{\n 'x': 1,\n }}".toList := by
+  decide +kernel
+-- escaped quotes, triple quotes with quotes and '}}' inside, a raw-string prefix, brackets inside strings, a tuple in a list
+def c01Strings : List Char := "!a{{'k': 'it\\'s }}', 2: \"\"\"a\"b'''}}\"\"\", 3: r'[(', 4: [(1, {2})]}} z".toList
+example : metadataEnd c01Strings 2 = some (c01Strings.length - 2) := by decide +kernel
+-- no end: an unterminated block, an unterminated string, a closer that closes nothing
+example : metadataEnd "!a{{'k': 1} ".toList 2 = none ∧ metadataEnd "!a{{'k': 'x}}".toList 2 = none ∧
+    metadataEnd "!a{{'k': 1)}}".toList 2 = none ∧ metadataEnd "!a{{'k': [1}}".toList 2 = none ∧ metadataEnd "!a{{".toList 2 = none := by
+  decide +kernel
+
+/- The assumptions of section 2 hold for the real end finder, for EVERY text: an end is not before its `{{` and not
+   beyond the text (`EndInside`, hence `EndForward`), and leaves room for the braces. -/
+theorem C01_end_inside (data : List Char) :
+    EndInside data (metadataEnd data) ∧ EndForward data (metadataEnd data) ∧
+    ∀ b e, metadataEnd data b = some e → b + 2 ≤ e := by
+  have h : EndInside data (metadataEnd data) := fun b e _ he => by
+    have := C01_end_is_closer data b e he
+    exact ⟨by omega, this.2.1⟩
+  exact ⟨h, h.forward, fun b e he => by have := C01_end_is_closer data b e he; omega⟩
+
+example : metadataEnd c01Text 5 = some 10 ∧ metadataEnd c01Text 17 = some 21 := by decide +kernel
+
+/- "simple metadata works": when the literal between the opening `{{` and a `}}` consists of characters that are
+   neither quotes nor brackets (`'…'`/`"…"` strings and nested `()[]{}` excluded: numbers, names, `:`, `,`, blanks, line
+   breaks, any other Unicode), the end is right behind that `}}` — which is then the first one. For EVERY text. -/
+theorem C01_end_simple (data : List Char) (b : Nat) (mid post : List Char)
+    (hd : data.drop (b + 2) = mid ++ '}' :: '}' :: post) (hm : ∀ c ∈ mid, plainChar c = true) :
+    metadataEnd data b = some (b + 2 + mid.length + 2) := by
+  have hl : (data.drop (b + 2)).length = data.length - (b + 2) := List.length_drop
+  rw [hd, List.length_append] at hl
+  simp only [List.length_cons] at hl
+  unfold metadataEnd
+  rw [scanEnd_plain data mid _ data.length (b + 2) hd hm (by omega)]
+  have hd2 : data.drop (b + 2 + mid.length) = '}' :: '}' :: post := by
+    have : (data.drop (b + 2)).drop mid.length = data.drop (b + 2 + mid.length) := List.drop_drop
+    rw [← this, hd, List.drop_left]
+  have hf : data.length + 1 - mid.length = (data.length - mid.length) + 1 := by omega
+  rw [hf, scanEnd, hd2]
+  rfl
+
+example : metadataEnd "k: !del{{ x: 1, y }} 5".toList 7 = some 20 := by decide +kernel
+example := C01_end_simple "k: !del{{ x: 1, y }} 5".toList 7 " x: 1, y ".toList " 5".toList (by decide +kernel) (by decide +kernel)
+
+/- "returns None when … a stray closer at depth 0": when the first character that is not plain is a closing bracket
+   and the text does not have `}}` there — `)`, `]`, or a single `}` — no end is found (the search loop then raises the
+   ValueError naming the tag). -/
+theorem C01_end_stray_closer (data : List Char) (b : Nat) (mid : List Char) (c : Char) (post : List Char)
+    (hd : data.drop (b + 2) = mid ++ c :: post) (hm : ∀ x ∈ mid, plainChar x = true) (hc : isClose c = true)
+    (hq : (c :: post).take 2 ≠ ['}', '}']) :
+    metadataEnd data b = none := by
+  have hl : (data.drop (b + 2)).length = data.length - (b + 2) := List.length_drop
+  rw [hd, List.length_append] at hl
+  simp only [List.length_cons] at hl
+  unfold metadataEnd
+  rw [scanEnd_plain data mid _ data.length (b + 2) hd hm (by omega)]
+  have hd2 : data.drop (b + 2 + mid.length) = c :: post := by
+    have : (data.drop (b + 2)).drop mid.length = data.drop (b + 2 + mid.length) := List.drop_drop
+    rw [← this, hd, List.drop_left]
+  have hf : data.length + 1 - mid.length = (data.length - mid.length) + 1 := by omega
+  have hnq : isQuote c = false := by
+    unfold isClose at hc; unfold isQuote
+    simp only [Bool.or_eq_true, decide_eq_true_eq] at hc
+    rcases hc with (h | h) | h <;> subst h <;> rfl
+  have hno : isOpen c = false := by
+    unfold isClose at hc; unfold isOpen
+    simp only [Bool.or_eq_true, decide_eq_true_eq] at hc
+    rcases hc with (h | h) | h <;> subst h <;> rfl
+  rw [hf, scanEnd, hd2]
+  simp only [quoteAt_none c post hnq, hno, hc, Bool.false_eq_true, if_false, if_true, hq]
+
+example := C01_end_stray_closer "!a{{ k: 1 )}}".toList 2 " k: 1 ".toList ')' "}}".toList (by decide +kernel) (by decide +kernel)
+  rfl (by decide)
+
+/- The answer does not depend on the fuel of the model: every turn of the loop moves forward, `len(data) + 1` turns
+   are always enough. -/
+theorem C01_end_fuel_irrelevant (data : List Char) (b fuel : Nat) (hf : data.length + 1 ≤ fuel) :
+    scanEnd data fuel (b + 2) 0 = metadataEnd data b :=
+  scanEnd_fuel data fuel (data.length + 1) (b + 2) 0 (by omega) (by omega)
+
+example : scanEnd c01Nested 1000 14 0 = some 29 := by decide +kernel
+
+/- The composition without any parameter but the encoder: for EVERY text, `_encode_all_metadata` — tag regex, search
+   loop, the character scanner as end finder, the in-place splice loop with `eval(data[beg+1:end-1])` read from the
+   current text — either raises the ValueError of a block without end, or terminates with ranges that are ascending,
+   non-overlapping and inside the text, each starting at a `{{` and ending behind a `}}`, and returns the one-pass
+   specification: every block `data[beg:end]` replaced by `enc` of its own inner text `data[beg+1:end-1]` of the
+   ORIGINAL text, everything else unchanged.  No assumption. -/
+theorem C01_encodeAll_total_spec (enc : List Char → List Char) (data : List Char) :
+    (∃ s b, metadataRangesOwn data = .error (.noEnd s b) ∧ encodeAllOwn enc data = .error (.noEnd s b)) ∨
+    (∃ rs, metadataRangesOwn data = .ok rs ∧
+      RangesOK data.length 0 (rs.map (fun r => (r.1, r.2, ()))) ∧
+      (∀ r ∈ rs, (data.drop r.1).take 2 = ['{', '{'] ∧ (data.drop (r.2 - 2)).take 2 = ['}', '}'] ∧ r.1 + 4 ≤ r.2) ∧
+      encodeAllOwn enc data =
+        .ok (spliceSpec data 0 (rs.map (fun r => (r.1, r.2, enc ((data.take (r.2 - 1)).drop (r.1 + 1))))))) := by
+  have hi := C01_end_inside data
+  have hr := C01_ranges_ascending (metadataEnd data) data hi.1 (fun _ _ => ())
+  have hl := C01_encodeAllLit_spec (metadataEnd data) enc data hi.1 hi.2.2
+  unfold metadataRangesOwn encodeAllOwn
+  cases hm : metadataRanges (metadataEnd data) data with
+  | error e =>
+    cases e with
+    | fuel => exact absurd hm hr.1
+    | noEnd s b =>
+      refine .inl ⟨s, b, rfl, ?_⟩
+      unfold encodeAllLit; rw [hm]
+  | ok rs =>
+    refine .inr ⟨rs, rfl, (hr.2 rs hm).1, ?_, ?_⟩
+    · intro r hrm
+      have h1 := (hr.2 rs hm).2 r hrm
+      have h2 := C01_end_is_closer data r.1 r.2 h1.2
+      exact ⟨h1.1, h2.2.2, h2.1⟩
+    · rcases hl with ⟨s, b, he⟩ | ⟨rs', hm', he⟩
+      · unfold encodeAllLit at he; rw [hm] at he; cases he
+      · rw [hm] at hm'; cases hm'; exact he
+
+example : metadataRangesOwn c01Nested = .ok [(12, 29)] ∧
+    encodeAllOwn (fun l => ':' :: l) c01Nested = .ok "a: !metadata:{'x': {'y': 1}} 5\n".toList := by decide +kernel
+example : encodeAllOwn (fun _ => ":H".toList) "a: !x{{'p': '}}'}} b !del{{\n}},!y{{(1, [2])}}".toList
+    = .ok "a: !x:H b !del:H,!y:H".toList := by decide +kernel
+example : encodeAllOwn (fun l => l) "a: !x{{'p': 1}} b: !u{{'never': 1} ".toList = .error (.noEnd 19 21) := by decide +kernel
 
 end AY
